@@ -126,10 +126,20 @@ def ts_value(r):
         return dt
     # struct_time, hand-built from the UTC fields (what gmtime would give)
     u = aware.replace(tzinfo=None)
+    if k < 0.80:
+        # tzinfo set but utcoffset() is None: naive by Python's definition
+        from sim.values import NO_OFFSET
+        return u.replace(tzinfo=NO_OFFSET)
     yday = (u - datetime.datetime(u.year, 1, 1)).days + 1
     isdst = r.choice([0, 0, 1, -1])
-    return time.struct_time((u.year, u.month, u.day, u.hour, u.minute,
-                             u.second, u.weekday(), yday, isdst))
+    fields = (u.year, u.month, u.day, u.hour, u.minute, u.second,
+              u.weekday(), yday, isdst)
+    if r.random() < 0.35:
+        # the 11-field form time.localtime()/strptime('%z') produce
+        return time.struct_time(fields + (r.choice(['EST', 'XYZ', None]),
+                                          r.choice([-18000, 3600, 19800,
+                                                    0, 50400])))
+    return time.struct_time(fields)
 
 
 # values that compare (and hash) equal in Python but have different wire
@@ -203,6 +213,57 @@ def confusable_ops(r):
     return out
 
 
+def raw_table(r, depth=0):
+    """A grammar-valid field table as a foreign peer may send it: keys in
+    arbitrary order, integers in non-minimal widths and unsigned tags.
+    Encoded by the harness, not by pamqp."""
+    import struct
+    entries = []
+    for i in range(r.randint(1, 5)):
+        key = r.choice(['z', 'y', 'b', 'a', 'k%d' % i, 'x-death', 'm'])
+        c = r.random()
+        n = r.randint(0, 100)
+        if c < 0.2:
+            val = b'I' + struct.pack('>i', n)
+        elif c < 0.35:
+            val = b'l' + struct.pack('>q', n)
+        elif c < 0.45:
+            val = b'B' + struct.pack('>B', n)
+        elif c < 0.55:
+            val = b'u' + struct.pack('>H', n)
+        elif c < 0.65:
+            val = b's' + struct.pack('>h', n)
+        elif c < 0.75:
+            val = b'S' + struct.pack('>I', 2) + b'hi'
+        elif c < 0.85 and depth < 2:
+            val = b'F' + raw_table(r, depth + 1)
+        elif c < 0.93 and depth < 2:
+            inner = b''.join(b'I' + struct.pack('>i', r.randint(0, 9))
+                             for _ in range(r.randint(0, 3)))
+            if r.random() < 0.5:
+                inner += b'F' + raw_table(r, depth + 1)
+            val = b'A' + struct.pack('>I', len(inner)) + inner
+        else:
+            val = b't\x01'
+        kb = key.encode()
+        entries.append(bytes([len(kb)]) + kb + val)
+    body = b''.join(entries)
+    return struct.pack('>I', len(body)) + body
+
+
+def raw_table_frame(r):
+    """A Queue.Declare or content-header frame around a raw table."""
+    import struct
+    t = raw_table(r)
+    if r.random() < 0.5:
+        payload = struct.pack('>HHH', 50, 10, 0) + b'\x01q' + b'\x00' + t
+        ftype = 1
+    else:
+        payload = struct.pack('>HHQH', 60, 0, 5, 0x2000) + t
+        ftype = 2
+    return struct.pack('>BHI', ftype, 1, len(payload)) + payload + b'\xce'
+
+
 # ---------------------------------------------------------------- catalogue
 
 def _try_encode(desc):
@@ -234,6 +295,48 @@ def build_catalogue(check, seed, size):
         for gi, op in confusable_ts_ops():
             op = dict(op, confusable=gi)
             cat.append(op)
+    if check in ('C12', 'C16'):
+        # tables as foreign peers send them (decoded, then held, edited and
+        # re-encoded by the caller), tables with run-wide distinct keys, and
+        # decimals with many places as only crafted bytes carry
+        for i in range(40):
+            cat.append({'op': 'unmarshal', 'b': raw_table_frame(r).hex()})
+            twins.append({'op': 'remarshal', 'b': cat[-1]['b']})
+        for i in range(120):
+            t = {'u%d_%d' % (i, j): r.choice([j, 'v', None, [j]])
+                 for j in range(r.randint(4, 9))}
+            if i % 10 == 0:
+                t['L' * 129 + str(i)] = i
+            cat.append({'op': 'enc', 'fn': 'field_table', 'v': to_desc(t)})
+        for i in range(30):
+            places = r.choice([9, 10, 12, 20, 28, 29, 30, 40, 64, 200, 255])
+            raw = bytes([places]) + r.randint(0, 2**31 - 1).to_bytes(4, 'big')
+            cat.append({'op': 'dec', 'fn': 'decimal', 'b': raw.hex()})
+            cat.append({'op': 'dec', 'fn': 'embedded_value',
+                        'b': (b'D' + raw).hex()})
+    if check == 'C11':
+        # integral floats next to the equal integers; encodes that die with
+        # something other than TypeError inside a table
+        import decimal
+        gi = 200
+        for n in (40000, 65535, 32768, 70000, 2**31 + 5, 300, -40000):
+            gi += 1
+            for v, flag in ((n, True), (float(n), False)):
+                for fn, wrap in (('encode_table_value', lambda x: x),
+                                 ('field_table', lambda x: {'n': x}),
+                                 ('field_array', lambda x: [x, 1])):
+                    op = {'op': 'enc', 'fn': fn, 'v': to_desc(wrap(v)),
+                          'confusable': gi}
+                    if flag:
+                        op['c11'] = True
+                    cat.append(op)
+        for bad in (decimal.Decimal('NaN'), decimal.Decimal('Infinity'),
+                    decimal.Decimal(10) ** 12,
+                    datetime.datetime(1960, 1, 1, tzinfo=UTC)):
+            for wrap in (lambda x: {'p': x, 'n': 40000},
+                         lambda x: {'o': {'i': [x]}}):
+                cat.append({'op': 'enc', 'fn': 'field_table',
+                            'v': to_desc(wrap(bad)), 'poison': True})
     marker = 0
     while len(cat) < size:
         marker += 1
@@ -613,6 +716,11 @@ def gen_trace(rng, check, population, tier, cat):
                        op['confusable']]
                 for _ in range(r.choice((1, 1, 2, 3))):
                     prog.append(r.choice(sib))
+        if population in ('long', 'long_faulty') and len(prog) > 20:
+            # the same calls at the start and again after a long time
+            anchors = [o for o in prog[:12] if o['op'] in (
+                'marshal', 'unmarshal', 'enc', 'dec', 'construct')][:4]
+            prog.extend(anchors)
         threads.append(prog)
     tr['threads'] = threads
     est = sum(len(p) for p in threads) * 120
@@ -622,6 +730,8 @@ def gen_trace(rng, check, population, tier, cat):
     if n > 1 and r.random() < 0.5:
         tr['novel'] = {'every': r.choice([1, 1, 2, 3, 5]),
                        'picks': [r.randrange(8) for _ in range(6)]}
+    if r.random() < 0.15:
+        tr['debug_log'] = True
     ncancel = r.choice([0, 0, 0, 1, 2]) if check in ('C16', 'C12') else 0
     tr['cancels'] = sorted(r.randint(1, max(2, est)) for _ in range(ncancel))
     return tr
